@@ -69,7 +69,7 @@ pub fn replay(args: &[String]) -> i32 {
     quiet_panics();
     check_model_tables();
     let lines = read_replay_lines(args.last().unwrap());
-    let values: BTreeMap<&str, &str> = [("a", "1"), ("ab", "23"), ("abc", "4"), ("b", "5"), ("bc", "67"), ("ca", "8"), ("Q", "9"), ("㍿a", "0Q"), ("p㍿", "ｋ")].into_iter().collect();
+    let values: BTreeMap<&str, &str> = [("a", "1"), ("ab", "ab"), ("abc", "4"), ("b", "5"), ("bc", "67"), ("ca", "8"), ("Q", "Q"), ("㍿a", "0Q"), ("p㍿", "ｋ")].into_iter().collect();
     // group by table
     let mut groups: BTreeMap<String, Vec<&Value>> = BTreeMap::new();
     for v in lines.iter() {
@@ -182,7 +182,7 @@ pub fn record(args: &[String]) -> i32 {
         for _ in 0..(1 + rng.below(6)) {
             let mut k = if !keys.is_empty() && rng.chance(1, 2) { rng.pick(&keys).clone() } else { String::new() };
             for _ in 0..(1 + rng.below(2)) { k.push_str(rng.pick_str(&letters)); }
-            if !keys.contains(&k) { keys.push(k.clone()); def.push_str(&format!("{} {}\n", k, rng.pick_str(&["X", "yz", "Ｗ", "あ"]))); }
+            if !keys.contains(&k) { keys.push(k.clone()); let v = if rng.chance(1, 5) { k.clone() } else { rng.pick_str(&["X", "yz", "Ｗ", "あ"]).to_string() }; def.push_str(&format!("{} {}\n", k, v)); }
         }
         let dict = match load_with("c07g", &def, DEFAULT_PLUGIN) { Ok(d) => d, Err(_) => continue };
         emit_table(&mut tr, run, &def);
